@@ -179,12 +179,7 @@ def store_part(ctx, bindir, d):
     store_model(ctx, d)
     # random histories over fabricated migrations + histories of a migration the engine itself plans, commits and
     # proves (real Halo 2 proofs, the broadcast seam's success path, the prover's own reservations)
-    # thorough: more histories of the length the quick tier uses. Histories of 150 events (tried: 60 x 150) reach
-    # rewind_to_chain_state calls that keep scanned blocks above their target; one such event (seed 1, trace line 9554:
-    # rewind_cs to 16 with the cascade at 25) is rejected by Trace_WalletStore.tla and has NOT been triaged yet - spec
-    # gap or defect - see notes/c18-untriaged-rewind_cs-replay.json and DESIGN.md section 9; until it is, the tier stays
-    # inside the domain on which the specification has been validated
-    histories, events, real = (8, 80, 1) if ctx.quick() else (40, 80, 3)
+    histories, events, real = (8, 80, 1) if ctx.quick() else (60, 150, 3)
     path = ctx.path("store_trace.ndjson")
     st = store_trace(ctx, bindir, path, histories, events, ctx.seed, real)
     lib.log("[store] %d lines; events %s; rewinds ok %d (un-mined a row: %d, spared mined rows: %d, refused: %d conflict / %d wallet, "
